@@ -17,7 +17,7 @@
 
    This file holds only statements, each closed by [exact] of a lemma from
    Proofs/, followed by Print Assumptions; plus pins and examples. *)
-From RM Require Import Model.EncSpec Proofs.EncFmt Proofs.EncShape Proofs.EncSimple Proofs.EncImage.
+From RM Require Import Model.EncSpec Proofs.EncFmt Proofs.EncShape Proofs.EncSimple Proofs.EncImage Proofs.EncObjects Proofs.EncRound.
 From RM Require Import Gen.Generated.
 Open Scope Z_scope.
 
@@ -238,6 +238,50 @@ Theorem C04_file_name_misread_refuted :
 Proof. exists d23_text. exact d23_witness. Qed.
 Print Assumptions C04_file_name_misread_refuted.
 
+(* ---------- T04b for hit-object lines: circles, spinners, holds ---------- *)
+(* [object_ok h]: start time within the parse limits, integer coordinates within
+   +-131072, combo offset 0..7, end time start + duration within the limits, sample
+   banks / custom index / volume representable, sample file name without `,` `:` "//".
+   For EVERY parser state the line is accepted and adds exactly one object of the same
+   kind with the same start time and position ([adds]); nothing is dropped or misread
+   as another kind of record. *)
+
+Theorem C04_circle_line_accepted :
+  forall fmt_f64 fmt_f32 fmt_int, fmt_ok fmt_f64 fmt_f32 fmt_int ->
+  forall dist mode h c l,
+  h_kind h = KCircle c -> object_ok h = true -> object_line dist mode h = Done l ->
+  forall st, exists st', parse_hit_objects st (render fmt_f64 fmt_f32 fmt_int l) = Done (st', Ok) /\
+                         adds st st' (h_start h) 0 (Some (ci_pos c)).
+Proof. intros f64 f32 fi Hfmt dist mode h c l H1 H2 H3. exact (circle_line_accepted f64 f32 fi Hfmt dist mode h c l H1 H2 H3). Qed.
+Print Assumptions C04_circle_line_accepted.
+
+Theorem C04_spinner_line_accepted :
+  forall fmt_f64 fmt_f32 fmt_int, fmt_ok fmt_f64 fmt_f32 fmt_int ->
+  forall dist mode h s l,
+  h_kind h = KSpinner s -> object_ok h = true -> object_line dist mode h = Done l ->
+  forall st, exists st', parse_hit_objects st (render fmt_f64 fmt_f32 fmt_int l) = Done (st', Ok) /\
+                         adds st st' (h_start h) 2 None.
+Proof. intros f64 f32 fi Hfmt dist mode h s l H1 H2 H3. exact (spinner_line_accepted f64 f32 fi Hfmt dist mode h s l H1 H2 H3). Qed.
+Print Assumptions C04_spinner_line_accepted.
+
+Theorem C04_hold_line_accepted :
+  forall fmt_f64 fmt_f32 fmt_int, fmt_ok fmt_f64 fmt_f32 fmt_int ->
+  forall dist mode h hd l,
+  h_kind h = KHold hd -> object_ok h = true -> object_line dist mode h = Done l ->
+  forall st, exists st', parse_hit_objects st (render fmt_f64 fmt_f32 fmt_int l) = Done (st', Ok) /\
+                         adds st st' (h_start h) 3 (Some (mkPos (hd_pos_x hd) (hd_pos_x hd))).
+Proof. intros f64 f32 fi Hfmt dist mode h hd l H1 H2 H3. exact (hold_line_accepted f64 f32 fi Hfmt dist mode h hd l H1 H2 H3). Qed.
+Print Assumptions C04_hold_line_accepted.
+
+(* non-vacuity: the circle, the hold and the spinner of a decoded file satisfy [object_ok] *)
+Example decoded_objects_ok :
+  match decode_beatmap stub_dist (lines_of_text plain_text) with
+  | Done m => forallb object_ok (hov_hit_objects (bmv_ho m)) = true /\
+              map (fun h => kind_tag (h_kind h)) (hov_hit_objects (bmv_ho m)) = [0; 3; 2]
+  | _ => False
+  end.
+Proof. vm_compute. split; reflexivity. Qed.
+
 (* ---------- what is not proved here (full statements kept visible) ----------
 
    T04b for timing-point lines [P]:
@@ -249,10 +293,15 @@ Print Assumptions C04_file_name_misread_refuted.
    signature > 0, bank/custom/volume within i32.  Covered by the `enc` correspondence and
    the C04 oracle (every encoded timing line is parsed with Beatmap::parse_timing_points).
 
-   T04b / T04c for hit-object lines [P]:
-     circles / spinners / holds:  parse_hit_objects st (render (object_line mode h)) = Done (st', Ok)
-     and the pushed object equals h up to carry; sliders additionally outside D17 / D21.
-   Not mechanised in this package; covered by the `enc` correspondence (slider files
-   included, curve and slider-event models connected) and by the C04 / C02 oracles
-   (each encoded hit-object line is parsed, kind and start time compared, objects
-   compared field by field in C02).  Known classes there: D17, D21 (C04: D21). *)
+   Hit-object lines, what is left [P]:
+     (a) [object_ok] on the decoder's image: not mechanised (the invariant has to be carried
+         through the stable sort, the break post-processing and SamplePoint::apply of
+         MapLevel.v); a side condition that is NOT an invariant and is exercised by the oracle:
+         start + duration may leave the parse limit by rounding.
+     (b) sliders (outside D17 / D21):  parse_hit_objects st (render (object_line mode h))
+         = Done (st', Ok), same kind / start / position, same control points.
+     (c) T04c in full for hit objects (samples up to carry) is a map-level statement
+         (SamplePoint::apply runs after parsing): C02's T02b.
+   Covered by the `enc` correspondence (slider files included, curve and slider-event models
+   connected) and by the C04 / C02 oracles (each encoded hit-object line is parsed, kind and
+   start time compared; objects compared field by field in C02). *)
